@@ -1148,6 +1148,10 @@ def _strict_options(c: ast.Call) -> List[Tuple[str, str]]:
             out.append(("allow_nan", "ValueError"))
         elif k.arg == "check_circular" and not (isinstance(k.value, ast.Constant) and k.value.value is True):
             out.append(("check_circular", "RecursionError"))
+        elif k.arg == "sort_keys" and not (isinstance(k.value, ast.Constant) and not k.value.value):
+            # sorting compares the keys: a mapping whose keys are of different types (1 and "a") encodes without
+            # sort_keys and raises TypeError with it
+            out.append(("sort_keys", "TypeError"))
         elif k.arg == "cls" and not (isinstance(k.value, ast.Constant) and k.value.value is None):
             out.append(("cls", "Exception"))
         elif k.arg is None:
@@ -1178,7 +1182,7 @@ def _sinks_not_stricter_than_sanitiser(repo: Repo, R: Report, drivers: Set[str])
                     continue
                 extra = [(o, e) for o, e in _strict_options(c) if o not in probe_strict]
                 open_ = [(o, e) for o, e in extra if not _caught_without_reraise(c, {e})]
-                R.check(not open_, r, rel, qn, norm(c)[:80], (f"`{open_[0][0]}=` makes this sink reject values that the sanitisers accept (serialize_json_safe probes with the default encoder; e.g. a NaN / inf parameter) and the resulting {open_[0][1]} is not contained here: the traced run raises where the untraced run returns" if open_ else ""), c.lineno)
+                R.check(not open_, r, rel, qn, norm(c)[:80], (f"`{open_[0][0]}=` makes this sink reject values that the sanitisers accept (serialize_json_safe probes without it; e.g. a NaN / inf parameter for allow_nan, a mapping with keys of mixed types for sort_keys) and the resulting {open_[0][1]} is not contained here: the traced run raises where the untraced run returns" if open_ else ""), c.lineno)
     # driver callbacks raise nothing of their own
     n_cb = 0
     for rel in [m for m in rels if m.startswith("semantiva/trace/drivers/")]:
